@@ -216,6 +216,8 @@ def trace_cfgs(quick, rng):
         # no diffusion in the precipitate: the precipitate content is accumulated from step to step
         {'name': 'rk4-nodiffusion', 'phases': ('B1',), 'iterator': 'rk4', 'segments': [15.0, 15.0], 'infinite': False},
         {'name': 'euler-nodiffusion', 'phases': ('B1',), 'iterator': 'euler', 'segments': [600.0], 'infinite': False},
+        # several coarsening and refining re-meshes of the size classes while the content is being accumulated
+        {'name': 'euler-nodiffusion-remesh', 'phases': ('B1',), 'iterator': 'euler', 'segments': [2e3, 2e3], 'infinite': False, 'bins': (1e-10, 1e-9, 40, 30, 50)},
         # molar volume of the precipitate changed between two solve calls, with and without a reset in between
         {'name': 'euler-volume-change', 'phases': ('B1',), 'iterator': 'euler', 'segments': [300.0, 300.0],
          'between': [[('setVolumeBeta', ((0.4e-9) ** 3 / 1.2, 1, 4, 'B1'))]]},
@@ -302,6 +304,29 @@ def oracle_trace(tr, tol=1e-9):
                 mag = abs(float(bef['slice']['fconc'][p][e])) + k * float(np.sum(r3 * (np.abs(xs[p]) + np.abs(bef['psd'][p])) * xbar[:, e]))
                 if abs(got - want) > 1e-9 * mag + 1e-300:
                     v.append(('no_diffusion_accumulates', 'increment', 'step %d of run %s: precipitate content of phase %d (no diffusion in the precipitate) recorded as %r, previous record + increment of this step = %r' % (aft['n'], tr.meta.get('name'), p, got, want), si))
+                    break
+        # no-diffusion mode with a precipitate of fixed composition (every row of the interfacial table equal): what was
+        # accumulated is then history independent, and the property text applies literally - the recorded precipitate
+        # content is the sum of particle volume times precipitate composition over the new distribution
+        for p in range(P):
+            if m.precipitateParameters[p].infinitePrecipitateDiffusion or bool(bef['slice']['volFrac'][p] == 1):
+                continue
+            if float(np.sum(xs[p])) < m.constraints.minNucleateDensity:
+                continue
+            tab = np.asarray(mb['xbeta'][p], dtype=float)
+            if tab.shape[0] != len(xs[p]) + 1 or np.max(np.abs(tab - tab[0])) > 1e-15:
+                continue
+            k = aft['vmA'] / aft['vmB'][p] * aft['volFactor'][p]
+            r3 = (0.5 * (bef['bounds'][p][1:] + bef['bounds'][p][:-1])) ** 3
+            for e in range(m.numberOfElements):
+                want = k * float(np.sum(r3 * xs[p])) * float(tab[0, e])
+                got = float(aft['slice']['fconc'][p][e])
+                if abs(got - want) > 1e-9 * abs(want) + 1e-13 * float(m.pData.composition[0][e]):
+                    x0 = float(m.pData.composition[0][e])
+                    v.append(('conservation', 'no_diffusion_fixed_composition',
+                              'step %d of run %s: solute %d held in precipitates of phase %d (no diffusion in the precipitate, fixed precipitate composition %r) is recorded as %r, '
+                              'but particle volume times composition summed over the distribution is %r: the balance x0 = %r is off by %.3e'
+                              % (aft['n'], tr.meta.get('name'), e, p, float(tab[0, e]), got, want, x0, got - want), si))
                     break
         # the distribution handed to the mass balance is the new distribution
         for p in range(P):
